@@ -6,32 +6,123 @@ import os
 ROOT = os.path.dirname(os.path.dirname(os.path.abspath(__file__)))
 
 # id -> (claimed?, technique, level text, level note)
+PBT = "property-based testing (Hypothesis)"
 CHECKS = {
     "C01": (
-        "property-based testing (Hypothesis) with a dense reference-model oracle",
+        PBT + " with a dense reference-model oracle",
         "generated operator trees x operations x right-hand-side kinds compared with an independent float64 dense reference model and torch.matmul",
         "trusts torch CPU float64 arithmetic and the harness' dense reference semantics (lov/refmodel.py); sizes <= 6 (<= 36 for Kronecker), nesting <= 3 (quick) / 4 (thorough); upper-orientation Cholesky operators are a recorded known finding and excluded from nesting",
     ),
+    "C02": (
+        PBT + ": generated expression programs over the ordered class-pair table, oracle = the same program on dense tensors step by step; declared-unsupported rule",
+        "generated 1-4 step expression programs (+ - * / @ cat sum prod expand repeat squeeze unsqueeze permute transpose add_diagonal add_jitter add_low_rank cat_rows) whose first step is drawn from the ordered class x class table; after every step the dense value and shape are compared with the same step on the dense references with torch semantics; an explicit not-supported error is accepted and counted, anything else is a violation",
+        "trusts torch broadcasting semantics as the specification and the dense reference model; program length <= 4, sizes <= 6; classes with open findings are excluded from generation and covered by their witnesses",
+    ),
     "C03": (
-        "property-based testing (Hypothesis): generated index tuples per (class, index-kind, position) cell, oracle = torch indexing of the dense reference",
+        PBT + ": generated index tuples per (class, index-kind, position) cell, oracle = torch indexing of the dense reference",
         "generated operator trees x index tuples (ints incl. negative, non-empty slices incl. stepped / over-long / stop==size, Ellipsis, 0-d/1-d/rank-2 LongTensors, lists) x debug on/off; result (densified when lazy) compared in shape, advanced-index placement and value with torch indexing of the independent dense reference; explicit not-supported errors are counted as declined, everything else is a violation",
         "trusts torch advanced-indexing semantics as the specification; classes / index features with an open known finding (BlockDiag, BlockInterleaved, Cat, BatchRepeat, TransposePermutation, negative tensor entries, Kronecker of non-square factors .diagonal()) are excluded from generation and covered only by their witnesses",
     ),
+    "C04": (
+        PBT + ": PD operator trees x right-hand sides x settings cells, residual oracle against the dense reference with method-specific bounds",
+        "generated positive-definite operator trees x rhs kinds x left factors x settings cells (max_cholesky_size, fast solves, cg_tolerance, max_cg_iterations, preconditioner sizes, memory_efficient); the returned X is checked by its residual against the independent dense reference with the direct-method backward-error bound, or the CG tolerance / Chebyshev bound for the iterations actually run when the verbose_linalg log shows CG",
+        "trusts float64 dense solves of the reference matrix; condition numbers computed from the reference (<= 1e6); sizes <= 6",
+    ),
+    "C05": (
+        PBT + ": PD operator trees x flags x settings, oracle = float64 slogdet / solve, and the exact Gauss-Lanczos quadrature for the recorded probe vectors",
+        "deterministic paths compared with float64 slogdet / dense solves and documented output shapes; on the stochastic path the probe vectors are read from the InvQuadLogdet autograd node and the returned value must equal log|P| + n/m sum u_i^T log(P^-1/2 A P^-1/2) u_i for exactly those probes",
+        "trusts torch.linalg.slogdet/eigh in float64; stochastic identity asserted only when the Lanczos budget reaches n",
+    ),
+    "C06": (
+        PBT + ": PSD operator trees x method x size thresholds, reconstruction / orthonormality / triangularity oracles",
+        "every factorization returned (cholesky, root_decomposition, root_inv_decomposition, eigh, eigvalsh, svd, diagonalization; every method argument) is multiplied out and compared with the dense reference; Q/U/V orthonormal, factors triangular, Lanczos roots equal the orthogonal compression onto their own span",
+        "trusts float64 dense arithmetic; thresholds are crossed by lowering the settings, not by building large operators",
+    ),
+    "C07": (
+        PBT + ": operator trees x requires-grad subsets x entry points, oracle = autograd through the differentiable dense reference",
+        "gradients delivered by backpropagation through the library to every floating leaf and right-hand side are compared with autograd of the same scalar computed from the dense reference assembled from the very same leaves; each class's _bilinear_derivative is compared with autograd of its own matmul position by position; memory_efficient on/off must agree",
+        "float64 only; stochastic log-determinant gradients are outside (their estimator is not a gradient of the forward value)",
+    ),
+    "C08": (
+        PBT + ": SPD systems with known spectrum, budget-sweep oracle (monotone A-norm error, Chebyshev bound, derived floor) and Lanczos identities of the returned tridiagonals",
+        "linear_cg is run with budgets 1..J on generated SPD systems whose eigenvalues are known by construction; monotone A-norm error, classical Chebyshev bound for the preconditioned condition number, floor derived from the code's own thresholds, tolerance when no warning, zero/scaled/frozen-column laws, preconditioner independence, tridiagonal = Lanczos matrix identities, error inputs raise",
+        "trusts float64 dense solves / eigh as reference; n <= 64, kappa <= 1e6 (sub-check domains restricted where a bound is not sound in float32)",
+    ),
+    "C09": (
+        PBT + ": symmetric PSD matrices x start vectors x budgets x batches, invariants of the returned (Q, T) and of the Lanczos consumers",
+        "Q^T Q = I, T symmetric tridiagonal, Q^T A Q = T, A Q - Q T supported in the last column, Krylov-dimension identities; Lanczos-based root / inverse root / diagonalization equal the orthogonal compression of A onto the space they span",
+        "tolerance is the routine's own re-orthogonalisation threshold (nothing tighter is promised); n <= 64",
+    ),
+    "C10": (
+        PBT + ": PSD families (low rank, ties, mixed batches) x rank x tolerance x noise, prefix invariants of the greedy factorization and dense Woodbury / determinant identities",
+        "every prefix of the returned pivoted-Cholesky factor is checked (residual PSD, zero pivot rows/columns, greedy pivot up to ties, monotone trace, exactness at full rank, early stop only below tolerance); the preconditioner closure, log-determinant and operator of K + D are compared with dense float64 (L L^T + D)^-1, log det and L L^T + D",
+        "trusts float64 dense inverses; inputs iterated past their numerical rank are outside the domain; interpolated inputs with an approximate diagonal get structural checks only",
+    ),
+    "C11": (
+        PBT + ": SPD systems x shifts x columns x quadrature settings, residual bounds, shift-invariance metamorphic relation, eigh matrix roots",
+        "MINRES residuals bounded for the iterations actually run, shift invariance (solve for shift s equals the shift-0 solve of K + sI), zero / linear laws and output-shape rules; contour-integral quadrature compared with float64 eigh matrix roots at the Hale-Higham-Trefethen rate; sqrt_inv_matmul twice equals the solve",
+        "kappa <= 1e4, n <= 40 (quadrature identities: n <= 20 or kappa <= 1e2)",
+    ),
+    "C12": (
+        PBT + ", stateful: generated query / derivation / settings histories on one object, oracle = the same query on a freshly built object + cache-content validity invariant",
+        "generated histories of queries and derivations on one operator object; every answer must equal the answer of the same query under the same settings on a fresh object built from the derived recipe; every factorization-valued cache entry of a derived object must multiply out to the derived matrix",
+        "histories <= 12 steps over public queries only (no injected cache entries)",
+    ),
+    "C13": (
+        PBT + ": operations x tensor layouts x short histories, oracle = version counters, strides and whole-storage bitwise snapshots",
+        "every caller tensor (defining tensors, rhs, lhs, guesses, probes, index tensors, shifts, cotangents) is materialised in a generated layout (expanded, transposed, slice of sentinel-padded storage, strided) and snapshotted bitwise (whole storage) before and after each operation; existing operators must densify bitwise identically afterwards",
+        "explicit out= buffers and detach_/requires_grad_ excepted as the statement says",
+    ),
+    "C14": (
+        PBT + ": operator trees x source/target/default dtype x copy-or-convert operation, oracle = structure, dense value, dtype of every returned tensor, storage disjointness",
+        "clone / detach / to / type / double / float / cpu / evaluate_kernel / representation round trip must preserve class and non-tensor arguments, the dense value to target precision, integer/bool dtypes, the floating dtype of every returned tensor under both torch default dtypes, storage disjointness of clones and requires_grad on exactly the float leaves",
+        "device moves (cuda) cannot run here",
+    ),
+    "C15": (
+        PBT + ": run-time registered-function tables x classes x operand orders, three-way agreement torch.f / method / dense",
+        "the registered-function tables are read at run time; torch.f(op, ...) must agree with op.method(...) (same value or same exception class) and with torch.f on the dense operand; reversed-operand forms must have the right order and sign; unregistered functions must raise NotImplementedError",
+        "argument-parsing errors raised by torch before dispatch are recorded as not dispatched",
+    ),
     "C16": (
-        "property-based testing (Hypothesis) against a reference implementation of the specification (eigenvalue-margin generator, per-member expected try index)",
+        PBT + " against a reference implementation of the specification (eigenvalue-margin generator, per-member expected try index)",
         "generated symmetric batches with the smallest eigenvalue placed at a stated margin from every jitter threshold; per-member reference verdict (sure-succeeds / sure-fails from float64 eigenvalues with a derived rounding margin), bitwise comparison of unperturbed members, jitter amount, warning/exception class and input immutability",
         "trusts torch.linalg.eigvalsh / cholesky_ex in float64 as reference; n <= 6; ambiguous inputs (lambda_min within rounding of a threshold) accept either neighbouring try",
     ),
+    "C17": (
+        PBT + ", stateful (RuleBasedStateMachine): construct/enter/exit/raise histories over all setting classes against a stack model, invariant after every event",
+        "generated histories of construct / enter / exit / exception-exit events over every setting class found by introspection are run against a model (value in force at enter time is restored at exit); after every event every on()/off()/value()/value(dtype) must equal the model and untouched classes their defaults; a fixed computation must be bitwise unaffected by a balanced history",
+        "histories <= 40 events; LIFO exit order as `with` guarantees",
+    ),
+    "C18": (
+        PBT + ": PSD operator trees x k x sampler variants, oracle = exact Jacobian of the samples with respect to the intercepted normal draws (J J^T = covariance)",
+        "torch.randn is intercepted in the harness process; the sampler's exact Jacobian with respect to its normal draws is obtained by finite differences (exact by linearity); J J^T must equal the reference covariance per draw and batch member, cross-draw and cross-member blocks must vanish, shape (k, *batch, n)",
+        "n <= 6, k <= 3; Lanczos roots are compared with their compression; no statistics involved",
+    ),
+    "C19": (
+        PBT + ": valid cases mutated into invalid ones, differential oracle = torch rejects the dense operation => the library must raise",
+        "valid operands are mutated (wrong / size-1 inner dimension, extra or missing dims, non-broadcastable batch, index == size or < -size, too many indices); a case is kept only if torch rejects the same operation on the dense reference; the library must then raise - a returned (and successfully densified) value is the violation",
+        "the converse direction (library raises where torch accepts) belongs to C01-C03",
+    ),
+    "C20": (
+        PBT + ": direct calls of the utility kernels over their documented domains, oracle = dense definitions, round trips, QR / Moore-Penrose identities",
+        "Toeplitz, interpolation, sparse, permutation, QR and pseudo-inverse kernels and dsmm (+ gradient) are called directly over their documented domains and compared with dense definitions written in the harness",
+        "domains are those of the docstrings; nearly singular QR / pinverse inputs are held to the documented jitter bound only",
+    ),
 }
+
+# properties whose check is built, quiet on the unchanged tree and registered
+CLAIMED = ["C01", "C03", "C10", "C16"]
 
 NOT_APPLICABLE = {}
 
-PENDING = ["C02", "C04", "C05", "C06", "C07", "C08", "C09", "C10", "C11", "C12", "C13", "C14", "C15", "C17", "C18", "C19", "C20"]
+PENDING = ["C%02d" % i for i in range(1, 21)]
 
 
 def main():
     checks = []
     for pid, (tech, text, note) in sorted(CHECKS.items()):
+        if pid not in CLAIMED:
+            continue
         checks.append(
             {
                 "property_id": pid,
@@ -51,7 +142,7 @@ def main():
         )
     na = [{"property_id": k, "reason": v} for k, v in sorted(NOT_APPLICABLE.items())]
     for pid in PENDING:
-        if pid not in CHECKS and pid not in NOT_APPLICABLE:
+        if pid not in CLAIMED and pid not in NOT_APPLICABLE:
             na.append({"property_id": pid, "reason": "check under construction in this build session (property-based test planned in DESIGN.md section 4); not claimed until it runs quietly on the unchanged tree"})
     man = {
         "version": 1,
@@ -67,7 +158,7 @@ def main():
             {
                 "name": "lov",
                 "path": "/verif/lov",
-                "serves_properties": sorted(CHECKS),
+                "serves_properties": sorted(CLAIMED),
                 "kind_free_text": "Hypothesis-driven generated-input search (stateful machines for histories, Atheris campaigns through fuzz_one_input where listed) against explicit oracles: dense reference model, reference implementations, round trips, metamorphic relations, classical error bounds; collect-and-bucket runner with shrink budget, JSON replay files and known-findings protocol",
             }
         ],
